@@ -213,10 +213,11 @@ const (
 	FaultTruncated = "truncated" // right type byte for the request, body cut short
 	FaultOversized = "oversized" // length prefix above 16 MiB, then the peer goes away
 	FaultClose     = "close"     // connection closed without a reply
+	FaultHuge      = "huge"      // length prefix 2^32-16, then the peer goes away
 )
 
 // AllFaults lists the fault kinds in simplest-first order.
-var AllFaults = []string{FaultFailure, FaultClose, FaultEmpty, FaultUnknown, FaultTruncated, FaultOversized}
+var AllFaults = []string{FaultFailure, FaultClose, FaultEmpty, FaultUnknown, FaultTruncated, FaultOversized, FaultHuge}
 
 // Req is one logged request.
 type Req struct {
@@ -313,6 +314,8 @@ func (a *Agent) Handle(frame []byte) vnet.Reply {
 		var l [4]byte
 		binary.BigEndian.PutUint32(l[:], 16<<20+1)
 		return vnet.Reply{Raw: l[:], Close: true}
+	case FaultHuge:
+		return vnet.Reply{Raw: []byte{0xff, 0xff, 0xff, 0xf0}, Close: true}
 	case FaultClose:
 		return vnet.Reply{Close: true}
 	}
